@@ -464,6 +464,8 @@ func vfC25EventName(ev int) string {
 	switch {
 	case ev < 3:
 		return "present-P" + strconv.Itoa(ev+1) + "(" + vfC25StampNames[ev] + ")"
+	case ev >= vfC25EvRespelled:
+		return "present-P" + strconv.Itoa(ev-vfC25EvRespelled+1) + "-respelled(" + vfC25StampNames[ev-vfC25EvRespelled] + ")"
 	case ev == vfC25EvBadFresh:
 		return "present-bad-MAC(fresh nonce, ts=now)"
 	case ev == vfC25EvBadReuse:
@@ -477,6 +479,16 @@ var vfC25Advances = []int64{0, vfC25Skew / 2, vfC25Skew, vfC25Skew + 1}
 
 // Forged presentations: well-formed, configured kid, in-window timestamp, MAC made with a
 // secret the worker does not know. They must be refused and must not count as admissions.
+// vfC25Respell returns the j-th alternative wire spelling (j=1..3) of a proof: the last MAC
+// character carries two unused bits, so four spellings decode to the same MAC bytes. A
+// respelled proof is the SAME proof (same kid, timestamp, nonce and MAC value).
+func vfC25Respell(proof string, j int) string {
+	last := strings.IndexByte(vfC25B64, proof[len(proof)-1])
+	return proof[:len(proof)-1] + string(vfC25B64[(last&^3)|((last+j)&3)])
+}
+
+const vfC25EvRespelled = 9 // events 9,10,11: present P1/P2/P3 in its first alternative spelling
+
 const (
 	vfC25EvBadFresh = 7 // a nonce never seen before
 	vfC25EvBadReuse = 8 // the nonce of the genuine proof P1
@@ -579,7 +591,7 @@ func vfC25History(t *testing.T, capName string, capacity int, depth int) {
 				accLog = append(accLog, fmt.Sprintf("%s@%+d", tag, clk-vfC25T0))
 				continue
 			}
-			if ev >= 3 {
+			if ev >= 3 && ev < vfC25EvBadFresh {
 				if clk-vfC25T0 > 2*vfC25Skew+1 {
 					// every proof is past its window for good: the clock is not advanced further (bound of the space)
 					return "", false
@@ -587,9 +599,15 @@ func vfC25History(t *testing.T, capName string, capacity int, depth int) {
 				clk += vfC25Advances[ev-3]
 				continue
 			}
-			p := ev
+			p, wire, mark := ev, "", ""
+			if ev >= vfC25EvRespelled {
+				p = ev - vfC25EvRespelled
+				wire, mark = vfC25Respell(proofs[p], 1), "'"
+			} else {
+				wire = proofs[p]
+			}
 			before := inner
-			_, gerr := gate(req(proofs[p]))
+			_, gerr := gate(req(wire))
 			acceptedNow := gerr == nil
 			age := clk - stamps[p]
 			inWindow := age <= vfC25Skew && -age <= vfC25Skew
@@ -619,7 +637,7 @@ func vfC25History(t *testing.T, capName string, capacity int, depth int) {
 						model[q].others[p] = true
 					}
 				}
-				accLog = append(accLog, fmt.Sprintf("P%d@%+d", p+1, clk-vfC25T0))
+				accLog = append(accLog, fmt.Sprintf("P%d%s@%+d", p+1, mark, clk-vfC25T0))
 			}
 		}
 		// Canonical key. The gate's only mutable state is its nonce cache, which
@@ -633,7 +651,7 @@ func vfC25History(t *testing.T, capName string, capacity int, depth int) {
 	venum.BFS(t, venum.BFSCfg{
 		Name:      "history-cap" + capName,
 		MaxDepth:  depth,
-		NEvents:   3 + len(vfC25Advances) + 2,
+		NEvents:   3 + len(vfC25Advances) + 2 + 3,
 		Step:      step,
 		EventName: vfC25EventName,
 	})
@@ -646,11 +664,78 @@ func vfC25Abs(v int64) int64 {
 	return v
 }
 
+// vfC25Spellings: every pair / triple of presentations of ONE proof in any of its four wire
+// spellings, with clock advances that keep it inside its window, for each capacity. A proof is
+// identified by what it says (kid, ts, nonce, MAC value), not by how it is spelled.
+func vfC25Spellings(t *testing.T) {
+	k1 := vfC25Secrets["k1"]
+	stamps := []int64{vfC25T0 - vfC25Skew, vfC25T0, vfC25T0 + vfC25Skew}
+	caps := []int{1, 2, 0}
+	capNames := []string{"1", "2", "default"}
+	venum.Explore(t, venum.Cfg{Name: "replay-spellings", Shardable: true}, func(x *venum.X) {
+		ci := x.Choose(len(caps), "capacity")
+		p := x.Choose(3, "proof-stamp")
+		n := 2 + x.Choose(2, "presentations-2-or-3")
+		clk := vfC25T0
+		inner := 0
+		gate, err := ProofAuthenticate(ProofConfig{
+			Mode: ProofModeRequire, OriginID: vfC25Origin, Secrets: map[string]ProofSecret{"k1": {Secret: k1, Label: "proxy"}},
+			SkewSeconds: int(vfC25Skew), ReplayCapacity: caps[ci], Now: func() time.Time { return time.Unix(clk, 0) },
+		}, func(r *http.Request) (*AuthContext, error) {
+			inner++
+			return &AuthContext{Domain: "t", Authenticated: true, Principal: "user"}, nil
+		})
+		if err != nil {
+			x.Failf("C25:setup:gate-rejected-valid-config", "ProofAuthenticate: %v", err)
+			return
+		}
+		proof, merr := MintProof(k1, "k1", vfC25Origin, stamps[p], vfC25Nonce("spell-"+strconv.Itoa(p)))
+		if merr != nil {
+			panic(merr)
+		}
+		acceptedBefore := false
+		var trace []string
+		for i := 0; i < n; i++ {
+			if i > 0 {
+				clk += []int64{0, vfC25Skew / 2, vfC25Skew}[x.Choose(3, "advance")]
+			}
+			j := x.Choose(4, "spelling")
+			wire := proof
+			if j > 0 {
+				wire = vfC25Respell(proof, j)
+			}
+			r, _ := http.NewRequest("POST", "http://worker/u", nil)
+			r.Header.Set(ProofHeader, wire)
+			before := inner
+			_, gerr := gate(r)
+			ok := gerr == nil
+			age := clk - stamps[p]
+			inWindow := age <= vfC25Skew && -age <= vfC25Skew
+			trace = append(trace, fmt.Sprintf("spelling%d@%+d:%v", j, clk-vfC25T0, ok))
+			switch {
+			case ok && !inWindow:
+				x.Failf("C25:spellings:accepted-outside-window:cap="+capNames[ci], "trace %v", trace)
+			case ok && acceptedBefore:
+				x.Failf("C25:spellings:respelled-replay-accepted:stamp="+vfC25StampNames[p]+":cap="+capNames[ci],
+					"the proof (ts=T0%+d) was accepted earlier and a presentation of the same proof in wire spelling %d is accepted again at T0%+d (|now-ts|=%d <= skew=%d), nothing else admitted; trace %v",
+					stamps[p]-vfC25T0, j, clk-vfC25T0, vfC25Abs(age), vfC25Skew, trace)
+			case ok && inner != before+1, !ok && inner != before:
+				x.Failf("C25:spellings:inner-count:cap="+capNames[ci], "accepted=%v inner ran %d times; trace %v", ok, inner-before, trace)
+			}
+			if ok {
+				acceptedBefore = true
+			}
+		}
+		x.Outcome("stamp=%s %s", vfC25StampNames[p], strings.Join(trace, " "))
+	})
+}
+
 func TestVerif_C25(t *testing.T) {
 	venum.Begin("C25")
 	defer venum.Finish(t)
 	vfC25Strings(t)
-	depth := venum.QT(5, 8)
+	vfC25Spellings(t)
+	depth := venum.QT(5, 7)
 	vfC25History(t, "1", 1, depth)
 	vfC25History(t, "2", 2, depth)
 	vfC25History(t, "default", 0, depth)
